@@ -223,6 +223,8 @@ def run(tier, seed, model):
                 break
         camp.extra["float_cases_bit_exact"] = len(coq_cases)
         polling(camp, rng, tmp, 80 if tier == "quick" else 2000)
+        if not camp.oracle_failures:
+            non_rgb_references(camp, rng, tmp, 60 if tier == "quick" else 1500)
         finding_empty_update(camp, tmp)
     finally:
         shutil.rmtree(tmp, ignore_errors=True)
@@ -233,6 +235,68 @@ def run(tier, seed, model):
                  "compared with the PrimFloat model evaluated by vm_compute; polling histories of 0..12 updates with the first match "
                  "at every position; non-trivial = (case, tolerance)")
     return camp
+
+
+def non_rgb_references(camp, rng, tmp, n):
+    """awaited images that are not RGB files (greyscale, palette, bilevel, with alpha).  Their own histogram has another
+    number of bins than a screen region's, so 'the RMS difference of the colour histograms' is either undefined (the wait
+    never completes) or that of the image read as colours (convert('RGB')).  Judged one-sidedly: completing is wrong when the
+    colour reading is clearly out of tolerance - then no reading lets the wait complete; a miss still costs exactly one request."""
+    for i in range(n):
+        w, h = rng.randrange(1, 9), rng.randrange(1, 7)
+        mode = rng.choice(["L", "L", "P", "P", "RGBA", "1", "LA"])
+        grey = [[rng.choice([0, 255]) if mode == "1" else rng.randrange(256) for _ in range(w)] for _ in range(h)]
+        if mode == "P":
+            ref = Image.new("P", (w, h))
+            pal = [rng.randrange(256) for _ in range(768)]
+            ref.putpalette(pal)
+            ref.putdata([g for r in grey for g in r])
+        elif mode == "RGBA":
+            ref = Image.new("RGBA", (w, h))
+            ref.putdata([(g, rng.randrange(256), rng.randrange(256), rng.randrange(256)) for r in grey for g in r])
+        elif mode == "LA":
+            ref = Image.new("LA", (w, h))
+            ref.putdata([(g, rng.randrange(256)) for r in grey for g in r])
+        else:
+            ref = Image.new("L", (w, h))
+            ref.putdata([g for r in grey for g in r])
+            if mode == "1":
+                ref = ref.convert("1")
+        png = os.path.join(tmp, "nonrgb.png")
+        ref.save(png)
+        as_rgb = rows_of(Image.open(png).convert("RGB"))
+        kind = rng.choice(["red-channel", "red-channel", "as-colours", "noise"])
+        if kind == "red-channel":       # a screen whose first channel repeats the reference's first band, the others differ
+            first = list(Image.open(png).getdata(0)) if mode not in ("1",) else [g for r in grey for g in r]
+            rows = [[(first[y * w + x], rng.randrange(256), rng.randrange(256)) for x in range(w)] for y in range(h)]
+        elif kind == "as-colours":
+            rows = [list(r) for r in as_rgb]
+        else:
+            rows = [[(rng.randrange(256), rng.randrange(256), rng.randrange(256)) for _ in range(w)] for _ in range(h)]
+        box = (0, 0, w, h)
+        s2 = exact_rms_sq(rows, (w, h), box, as_rgb)
+        rms = math.sqrt(s2 / 768)
+        for tol in (0.0, rng.choice([0.05, rms * 0.5, rms * 0.9])):
+            c = new_client()
+            c.screen = img_from_rows(rows)
+            done, reqs, d = real_expect(c, png, 0, 0, tol, rng.random() < 0.7)
+            camp.evaluations += 1
+            camp.count("non-rgb-reference:" + mode)
+            camp.count("non-rgb-screen:" + kind)
+            camp.nontrivial.add(("nonrgb", i, tol))
+            why = None
+            if done and Fraction(s2, 768) > Fraction(tol) ** 2 and rms - tol > 1e-9:
+                why = (f"the wait completed at once although the image read as colours is RMS {rms!r} away from the region "
+                       f"(tolerance {tol!r}) and its own {len(Image.open(png).histogram())}-bin histogram cannot be compared with the region's 768 bins")
+            elif done and reqs:
+                why = f"the wait completed at once but {len(reqs)} request(s) were written"
+            elif not done and reqs != [("FbUpdateRequest", 1, 0, 0, 64, 64)]:
+                why = f"a miss must send exactly one incremental whole-desktop request, got {reqs}"
+            if why:
+                camp.oracle_failures.append({"kind": "oracle", "property": "C07",
+                                             "case": {"non_rgb": mode, "screen": rows, "x": 0, "y": 0, "maxrms": float(tol).hex()},
+                                             "what": f"awaited image of mode {mode} ({w}x{h}), screen '{kind}': {why}"})
+                return
 
 
 def fbu_raw(x, y, rows):
@@ -370,8 +434,8 @@ def finding_empty_update(camp, tmp):
 
 def replay(payload):
     case = payload["case"]
-    if "screen" not in case:
-        return True, "replay: polling / no-screen case; re-run ./check C07"
+    if "screen" not in case or "non_rgb" in case:
+        return True, "replay: polling / no-screen / non-RGB reference case; re-run ./check C07"
     tmp = tempfile.mkdtemp(prefix="c07-")
     try:
         rows = [[tuple(p) for p in r] for r in case["screen"]]
